@@ -63,7 +63,7 @@ double maxDiff3(const std::vector<Vector3>& a, const std::vector<Vector3>& b) {
 	return m;
 }
 
-const char* setters[] = {"none", "positions", "uvs", "normals", "tangents", "bitangents", "colors", "eyedata", "triangles", "bounds"};
+const char* setters[] = {"none", "positions", "uvs", "normals", "tangents", "bitangents", "colors", "eyedata", "triangles", "bounds", "drop-uvs", "drop-normals"};
 
 Verdict prop(Tape& t, Run& run) {
 	const size_t vi = apiVersionIndices()[t.u8() % apiVersionIndices().size()];
@@ -82,7 +82,7 @@ Verdict prop(Tape& t, Run& run) {
 		m.uvs.resize(m.verts.size());
 	if (overlong && !m.norms.empty())
 		m.norms.resize(m.verts.size(), Vector3(0, 0, 1));
-	const uint8_t setter = t.u8() % 10;
+	const uint8_t setter = t.u8() % 12;
 
 	NifFile nif;
 	nif.Create(ver.ni());
@@ -268,6 +268,30 @@ Verdict prop(Tape& t, Run& run) {
 				return run.fail(sigBase + ":set-bounds", detail("SetBounds/GetBounds: values differ"));
 			break;
 		}
+		case 10:
+		case 11: { // switch an optional per-vertex channel off (BSTriShape vertex layout changes)
+			if (!isBs) {
+				setterApplies = false;
+				break;
+			}
+			auto bs = static_cast<BSTriShape*>(shape);
+			if (setter == 10)
+				bs->SetUVs(false);
+			else
+				bs->SetNormals(false);
+			Snap a = snap(nif, shape);
+			if (setter == 10 ? a.hasUvs : a.hasNormals)
+				return run.fail(sigBase + ":drop-channel", detail("channel still reported after it was switched off"));
+			// the switched-off channel (and what depends on it) is gone; everything else must be as before
+			before.uvs = a.uvs;
+			before.hasUvs = a.hasUvs;
+			before.normals = a.normals;
+			before.hasNormals = a.hasNormals;
+			before.tangents = a.tangents;
+			before.bitangents = a.bitangents;
+			before.hasTangents = a.hasTangents;
+			break;
+		}
 		default: break;
 	}
 	if (!setterApplies)
@@ -377,7 +401,7 @@ Verdict prop(Tape& t, Run& run) {
 void deterministic(Run& run, const std::function<void(const std::vector<uint8_t>&)>& feed) {
 	// every version x every setter x a few structured meshes (tiny, small, limit sizes)
 	for (uint8_t v = 0; v < 6; v++)
-		for (uint8_t setter = 0; setter < 10; setter++)
+		for (uint8_t setter = 0; setter < 12; setter++)
 			for (uint8_t cls : {0x00, 0x01, 0x02, 0x40, 0xC0}) {
 				std::vector<uint8_t> tape = {v, 0x80 /*uvs*/, cls};
 				tape.resize(200, static_cast<uint8_t>(0x35 + setter * 7 + v));
